@@ -40,6 +40,71 @@ CLAIMED = {
     text='Decides for every outcome including BaseException that each attempt produces begin, then exactly one of end (on return) or error followed by re-raise of the same exception, in tracer configuration order with one shared trace context, and that tracing is applied inside retrying so every attempt is traced.',
     note='Trusted: python ast, pjx engine. Assumes tracer callbacks do not raise.',
     ref='DESIGN.md §3 C19'),
+ 'C04': dict(
+    technique='static analysis: API-misuse dataflow (BoundArguments.arguments → ** splat) through resolved validator overrides + structural/dominance rules for context exclusion/injection, binder strictness and copy-only result flow',
+    text='Decides that the name→value mapping inspect.BoundArguments.arguments (wrong for *args/**kwargs/positional-only parameters) must not be double-splatted into the user method call, that the context name is excluded from client binding and injected after the client mapping (or as first positional / through the view constructor), that the binder is Signature.bind over the filtered signature with TypeError→ValidationError, and that the method\'s return value reaches Response(result=…) through copies only. Reports the genuine defect D3 as KNOWN-FINDING.',
+    note='Trusted: python ast, pjx engine, inspect\'s documented semantics of BoundArguments.arguments vs .args/.kwargs. Not decided: the cross product signatures × argument lists is inspect\'s semantics.',
+    ref='DESIGN.md §3 C04'),
+ 'C05': dict(
+    technique='static analysis: writer/reader key-table extraction with guard dominance/post-dominance (wire tables), sentinel-kind abstract interpretation (truthiness on sentinel-typed values), parameter-forwarding and registry structure rules',
+    text='Decides the structural necessary conditions of the round trip: to_json and from_json of Request/Response/JsonRpcError use the same key set, each optional member\'s omission condition pairs with the reader default, each key maps to the same constructor parameter in both directions, batch forms are element-wise in storage order, the version constant is "2.0", no sentinel-typed value or protocol scalar is tested by truthiness, the error class is looked up in the code registry with the supplied base as default and error_cls is forwarded through nested deserialisers, and the JSON encoder covers every message class.',
+    note='Trusted: python ast, pjx engine. Not decided: value equality after JSON encode/decode for arbitrary payloads (json\'s semantics) — runtime values.',
+    ref='DESIGN.md §3 C05'),
+ 'C07': dict(
+    technique='static analysis: structural rules over every call notation and _send (single request construction, id provenance, one transport call) + declared-type rule for id generators',
+    text='Decides structural necessary conditions only: each notation builds exactly one request with an id drawn from the (per-batch single) generator or none for notifications, positional xor named arguments, method name unmodified; _send transmits one document, decodes with the client error class, relates the response, and treats a body for a notification as an error in strict mode (matching the server\'s silence); is_notification definitions; every public id generator yields str|int. Reports D7 (generators.uuid) as KNOWN-FINDING.',
+    note='Trusted: python ast, pjx engine. Not decided: end-to-end value equality and interchangeability of notations on concrete data (runtime values).',
+    ref='DESIGN.md §3 C07'),
+ 'C08': dict(
+    technique='static analysis: guard-conjunction extraction by CFG dominance in the two _relate validators, abstract interpretation of Response.result under the class invariant, order-provenance rule for batch results',
+    text='Decides that IdentityError is raised exactly on strict ∧ id not None ∧ ids differ (plain comparison), that accepted responses are linked, that batch misses/leftovers/duplicates are rejected under strict (default True), that Response.result raises iff an error is set and BatchResponse.result raises the batch error first, and whether the returned result sequence is sequenced by the request batch. Reports D8 (server-order results) as KNOWN-FINDING.',
+    note='Trusted: python ast, pjx engine. The permutation space is not enumerated; the rule shows whether order is taken from the request.',
+    ref='DESIGN.md §3 C08'),
+ 'C10': dict(
+    technique='static analysis: effect/retention analysis (non-interference) over the async per-element call tree + order-preserving-join rule + flag liveness and sequential-mode structure',
+    text='Decides by non-interference rather than schedule enumeration: the per-element handler tree writes no state shared between batch elements, each response is built from its own request parameter and the join is asyncio.gather / a sequential comprehension (order-preserving), so no interleaving can exchange ids or results; every constructor option stored on the dispatcher is read, and with concurrent_batch off the elements are awaited one by one with no task combinator.',
+    note='Trusted: python ast, pjx engine, asyncio.gather\'s documented result order. Assumes user callables share no state. Schedules are not enumerated.',
+    ref='DESIGN.md §3 C10'),
+ 'C11': dict(
+    technique='static analysis: twin fact comparison — semantic fact records of the C01–C03/C07–C09/C12/C19 extractors plus per-pair bags (raised, caught, constructed errors, callees, conditions, return shapes) compared between the sync and async halves after await erasure',
+    text='Decides for 17 hand-copied twin pairs that the synchronous and asynchronous versions yield equal fact records and equal bags; declared asymmetries (gather vs generator, iscoroutine/await step, concurrent_batch) are recognised by the extractors. Any one-sided edit that changes a compared facet is reported with both sides.',
+    note='Trusted: python ast, pjx engine. Not decided: behavioural equality on facets no fact covers; the facets compared are listed in the evidence.',
+    ref='DESIGN.md §3 C11'),
+ 'C13': dict(
+    technique='static analysis: effect and retention analysis over the whole dispatch call tree (shared writes; per-request taint into long-lived sinks incl. lru_cache keys) + mutable-default and registry-write rules',
+    text='Decides that the dispatch call tree of both dispatchers writes no long-lived state (so responses cannot depend on history or other threads), that no per-request value reaches a long-lived sink (attribute/container store or memoised-function argument), that mutable defaults are never mutated and the error registry is written only at class creation. Reports D13 (bound view methods as lru_cache keys) as KNOWN-FINDING.',
+    note='Trusted: python ast, pjx engine, functools.lru_cache keeps its arguments alive as keys. Assumes registered methods keep no state. Memory growth itself is not measured.',
+    ref='DESIGN.md §3 C13'),
+ 'C14': dict(
+    technique='static analysis: CFG dominance (bind ≺ schema validation ≺ return) in every validate_method override, parameter forwarding, exclusion-formula extraction, payload and encoder structure rules',
+    text='Decides the structural clauses: every validator binds before validating before returning, forwards exclude to the signature filter, drops a parameter iff excluded or selected by the predicate, feeds one filtered signature to binder and schema builder, raises ValidationError with string payloads that the server encoder serialises, switches coercion correctly, and the dispatcher validates before invoking.',
+    note='Trusted: python ast, pjx engine. Not decided: "iff the arguments satisfy the schema/annotations" — semantics of jsonschema and pydantic (third party); PydanticValidator is inoperative under the installed pydantic.',
+    ref='DESIGN.md §3 C14'),
+ 'C15': dict(
+    technique='static analysis: symbolic evaluation of the name-composition expression of each registration operation + store/lookup/filter structure rules',
+    text='Decides per registration operation (add, view, merge, dispatcher delegation) that the stored key is the dot-join of the non-empty prefixes and the explicit or own name, that the store is an unconditional assignment, that views expose exactly public callables, and that the lookup is exact on the unmodified request method name with a miss → -32601; induction over histories follows from the per-operation forms.',
+    note='Trusted: python ast, pjx engine. Recognised composition forms are listed in DESIGN.md; another form yields ANALYSIS-ERROR. Raw Method(...) instances keep their given name (outside the property alphabet).',
+    ref='DESIGN.md §3 C15'),
+ 'C16': dict(
+    technique='static analysis: borrowed/fresh provenance analysis (purity), loop-carried dependence analysis of the per-method loops, loop completeness, $ref-prefix/key agreement, interface-shape sibling check over extractor implementations',
+    text='Decides that generation mutates no borrowed object (method metadata, annotation lists, generator state, user-passed maps) and works on a deep copy of the template, that no local of the per-method loop is live into the next iteration, that every method gets exactly one entry keyed by its exposed name, that components are registered under the prefix used in ref_template, and that constant subscripts applied to extractor results are provided by every extractor implementation.',
+    note='Trusted: python ast, pjx engine. Not decided: JSON-encodability and meta-schema validity of the documents (values produced by pydantic/dataclasses — third-party semantics).',
+    ref='DESIGN.md §3 C16'),
+ 'C17': dict(
+    technique='static analysis: sibling agreement — exclusion formula extraction from the binder and the documenter, exclude-expression comparison at the three call sites, required/default mapping, binding-state comparison of documented vs bound callable',
+    text='Decides that binder and documents keep a parameter under the same formula and the same exclude expression, that required ⇔ no default, and whether the documented callable is the bound callable in the same binding state. Reports D17 (view methods document self) as KNOWN-FINDING.',
+    note='Trusted: python ast, pjx engine. Not decided: the docstring extractor documents free text.',
+    ref='DESIGN.md §3 C17'),
+ 'C18': dict(
+    technique='static analysis: gate recognition against a framework accessor table, CFG dominance of the dispatch call, exception-escape analysis of the WSGI callable, copy-only relay rules, sibling comparison of the three integrations',
+    text='Decides per integration that the gate compares a parameter-free media type with REQUEST_CONTENT_TYPES and dominates dispatch, that a refusal becomes a reply (no HTTPException escapes a bare WSGI callable), that the body is the dispatcher text with the JSON content type and status_by_error status (empty 200 for None), and that the three integrations use the same kind of gate.',
+    note='Trusted: python ast, pjx engine, the framework accessor table (aiohttp content_type / werkzeug-flask mimetype are parameter-free; content_type raw; is_json only application/json and +json). Other integrations are outside the property.',
+    ref='DESIGN.md §3 C18'),
+ 'C20': dict(
+    technique='static analysis: structural rules and typestate (recording count) over _match_request/_on_request, sentinel-kind rule on the reply id',
+    text='Decides the per-operation effects: head pop and tail re-append iff not once with cleanup, exactly one recording with the request params before every matched reply, reply id = request id with the configured id only when the request id is None, -32601 with the request id for unpatched methods, passthrough/refusal for unpatched endpoints, element-wise in-order batches.',
+    note='Trusted: python ast, pjx engine. Not decided: the history state space beyond per-operation effects.',
+    ref='DESIGN.md §3 C20'),
 }
 
 NA_REASON = 'check under construction (static rules designed in DESIGN.md section 3, not yet built)'
